@@ -18,6 +18,8 @@ func main() {
 	in := flag.String("in", "", "histories (json lines)")
 	out := flag.String("out", "", "trace (ndjson)")
 	seed := flag.Int64("seed", 1, "seed")
+	stride := flag.Int("stride", 1, "with -offset: handle only the histories whose index is offset modulo stride (sharding)")
+	offset := flag.Int("offset", 0, "see -stride")
 	flag.Parse()
 	l1.InstallL2Hook()
 	fi, err := os.Open(*in)
@@ -30,6 +32,10 @@ func main() {
 	sc.Buffer(make([]byte, 1<<20), 1<<28)
 	nh, ncalls, nouts, nlines, nret := 0, 0, 0, 0, 0
 	for sc.Scan() {
+		if nh%*stride != *offset {
+			nh++
+			continue
+		}
 		var hist []l1.Call
 		must(json.Unmarshal(sc.Bytes(), &hist))
 		l := l1.NewL2(*seed+int64(nh)*7919, 0)
